@@ -79,6 +79,9 @@ def extended_defs(nb, staged=True, bunched=True, leadloop=None):
     if leadloop:
         # loop bodies that begin with an inner loop (shared start event)
         out += [("FL", d) for d in fragment.F_leadloop(leadloop)]
+        # exit path of a loop that begins with a loop of its own
+        out += [("FK", d) for d in
+                fragment.loop_on_break_path_family(leadloop)]
     return out
 
 
